@@ -1,7 +1,7 @@
 (* Proofs/AssignThms.v - the statements of property C19 about the model of
    AssignBuf, assembled from the cells of AssignMatrix.v. *)
 From Coq Require Import ZArith Bool String Ascii List Lia Floats.SpecFloat.
-From Verif Require Import Util Ints Strconv Floats Assign AssignSpec AssignText AssignMatrix.
+From Verif Require Import Util Ints Strconv Floats AssignVal Assign AssignSpec AssignText AssignMatrix.
 Import ListNotations.
 Local Open Scope Z_scope.
 
